@@ -85,6 +85,47 @@ def oracle(spec, ops):
     return None
 
 
+
+def wide_input_cases(rep, rng, n):
+    """add_single must agree with add on a batch of one ALSO when the caller passes objectives wider than the archive's dtype
+    (float64 values into a float32 archive): candidates are placed within a fraction of a float32 ulp around the live threshold."""
+    for _ in range(n):
+        spec = au.gen_spec(rng, kinds=("grid", "cvt"), cma=rng.random() < 0.5, dtypes=("f",), max_cells=16)
+        spec["extras"] = []
+        prefix = au.gen_history(rng, spec, rng.randint(1, 5), 4, lambda r: r.randrange(-64, 65) / 8.0, clear_rate=0.0)
+        a1, a2 = au.make_archive(spec), au.make_archive(spec)
+        for arch in (a1, a2):
+            for op in prefix:
+                if op[0] == "add":
+                    arch.add(**au.batch_arrays(spec, op[1]))
+                elif op[0] == "add_single":
+                    arch.add_single(**au.single_args(spec, op[1]))
+        d = a1.data()
+        if len(d["index"]) == 0:
+            continue
+        k = rng.randrange(len(d["index"]))
+        thr = float(d["threshold"][k])
+        ulp32 = float(np.spacing(np.float32(abs(thr) if thr else 1.0)))
+        obj = thr + rng.choice([0.25, 0.4, -0.25, -0.4, 0.0, 0.6, -0.6]) * ulp32     # a float64 that is (mostly) not a float32
+        mea = np.asarray(d["measures"][k], dtype=np.float64)
+        sol = np.zeros(spec["sol_dim"])
+        i1 = a1.add(sol[None], np.array([obj], dtype=np.float64), mea[None])
+        i2 = a2.add_single(sol, obj, mea)
+        rep.count("wide_input_cases")
+        rep.case({"wide": [spec["kind"], spec.get("tmin"), obj.hex() if hasattr(obj, "hex") else obj, thr]}, True)
+        s1, s2 = int(i1["status"][0]), int(i2["status"])
+        v1, v2 = float(i1["value"][0]), float(i2["value"])
+        c1, c2 = a1.data(), a2.data()
+        same = s1 == s2 and v1 == v2 and all(np.array_equal(c1[f], c2[f]) for f in c1)
+        if not same:
+            rep.violation("add on a batch of one and add_single disagree for a float64 objective in a float32 archive: objective %r, cell threshold %r: "
+                          "add -> status %d value %r, add_single -> status %d value %r" % (obj, thr, s1, v1, s2, v2),
+                          {"kind": "property", "broken": "C02_single_eq_batch1 (add_single agrees with add on a batch of one)",
+                           "case": {"spec": spec, "prefix": prefix, "objective_hex": float(obj).hex(), "measures": mea.tolist(), "threshold": thr}},
+                          True, {"kind": "batch-single-dtype-cast"})
+            return
+
+
 def nontrivial(case):
     """a batch with >= 2 members sharing a measure point, and some objective placed exactly at a current threshold or an exact tie"""
     ops = case["ops"]
@@ -123,3 +164,4 @@ def check(rep, tier, seed, driver):
     au.run_cases(rep, "C02", cases, compare=compare, oracle=oracle, nontrivial=nontrivial,
                  what="add feedback", broken="Model/Archive.v vs ribs/archives/_transforms.py + _archive_base.py",
                  theorems=["C02_pointwise", "C02_single_feedback", "C02_stored_has_status", "C02_single_eq_batch1"])
+    wide_input_cases(rep, rng, 60 if tier == "quick" else 1500)
